@@ -825,6 +825,10 @@ func (p *prop) Generate(rng *core.Rand, tier string, emit func(string)) {
 			continue
 		}
 		mode := g.rng.Intn(3)
+		if g.rng.Chance(1, 3) {
+			// a wider spread of final statuses in front of the recorder's decisions
+			f[11] = strings.Replace(f[11], "h200", g.rng.Pick([]string{"h206", "h206", "h201", "h301", "h404", "h500", "h203", "h226"}), 1)
+		}
 		if ops, ok := parseScriptOnly(f[11]); ok {
 			f[9] = "~"
 			if fp := recorderFirstPayload(ops, mode); fp != nil {
